@@ -347,7 +347,9 @@ def _is_option(t):
 
 def _full_self(fn, c):
     """resolved name of a call term's callee including the Self type (for generic decoders)"""
-    site = c[3]
+    site = c[3] if len(c) > 3 else None
+    if site and site[0] == "<fn-item>":
+        return site[1]          # a function item used as a value (`.map(T::from_cbor_value)`): its resolved name
     if site and site[0] == fn.key:
         cal = fn.blocks[site[1]]["term"]["callee"]
         r = cal.get("resolved") or {}
